@@ -8,3 +8,12 @@ package datatype
 func pad4(n int) int {
 	return n + ((4 - n) & 3)
 }
+
+// copyBytes returns a private copy of b. Decoders of slice-backed data
+// types use it so that a decoded value does not alias the caller's buffer,
+// which diam.ReadMessage takes from a pool and reuses for the next message.
+func copyBytes(b []byte) []byte {
+	c := make([]byte, len(b))
+	copy(c, b)
+	return c
+}
